@@ -36,6 +36,8 @@ def gen_case(rng):
         T = max(1, 2 ** 19 // F)
     asc = rng.random() < 0.5
     c = dict(route=route, F=F, T=T, df=float(df).hex(), dt=float(dt).hex(), fch1=float(fch1).hex(), ascending=asc)
+    if route != "backend" and rng.random() < 0.12:
+        c["neg_df"] = True
     if route == "backend":
         sr = rng.choice([3e9, 2.0 ** 31, 1e9]); nb = rng.choice([64, 1024]); ffl = rng.choice([1024, 1048576, 4096]); intf = rng.randint(1, 51)
         cbw = sr / nb; dfb = cbw / ffl; dtb = intf / dfb
@@ -102,7 +104,7 @@ def run(ctx):
         if "crash" in r:
             ctx.impl_violation("frame-unusable", "building / probing a %dx%d frame (route %s, df %r, dt %r) raised %s" % (T, F, c["route"], df, dt, r["crash"]), c)
             continue
-        ctx.tally("route", c["route"]); ctx.tally("orientation", "asc" if asc else "desc"); ctx.tally("log2_fchans", int(math.log2(F)) if F else 0)
+        ctx.tally("route", c["route"]); ctx.tally("df_sign_given", "-" if c.get("neg_df") else "+"); ctx.tally("orientation", "asc" if asc else "desc"); ctx.tally("log2_fchans", int(math.log2(F)) if F else 0)
 
         def bad(key, msg):
             ctx.impl_violation(key, msg, c)
